@@ -334,3 +334,56 @@ func (P *Prog) evalCalls(p *Path, t *Term, assume factSet, depth int) *Term {
 		return nil
 	})
 }
+
+// expandBoolCalls: conditions of the form f(args) == v, with f an in-package
+// function returning a single bool, are replaced by the conditions of each
+// feasible path of f that returns v (constant) or a computed boolean (then
+// that boolean == v is added); one condition set per combination.
+func (P *Prog) expandBoolCalls(conds []Fact, depth int) [][]Fact {
+	alts := [][]Fact{{}}
+	for _, c := range conds {
+		var sub [][]Fact
+		if c.Pred.Op == "call" && depth < 3 {
+			if g := P.calleeOfTerm(c.Pred); g != nil && g.Signature.Results().Len() == 1 && boolResultIndex(g) == 0 {
+				m := map[string]*Term{}
+				for i, a := range c.Pred.Args {
+					m[itoa(int64(i))] = a
+				}
+				for _, gp := range P.allPaths(g) {
+					if !gp.feasible() {
+						continue
+					}
+					rt := gp.results()[0]
+					var set []Fact
+					for _, gc := range gp.conds {
+						set = append(set, normFact(gc.Pred.subst(m), gc.Val))
+					}
+					switch {
+					case rt.Op == "const" && (rt.S == "true") == c.Val:
+					case rt.Op == "const":
+						continue
+					default:
+						set = append(set, normFact(rt.subst(m), c.Val))
+					}
+					for _, e := range P.expandBoolCalls(set, depth+1) {
+						sub = append(sub, e)
+					}
+				}
+			}
+		}
+		if sub == nil {
+			sub = [][]Fact{{c}}
+		}
+		var next [][]Fact
+		for _, a := range alts {
+			for _, s := range sub {
+				next = append(next, append(append([]Fact{}, a...), s...))
+			}
+		}
+		alts = next
+		if len(alts) > 512 {
+			break
+		}
+	}
+	return alts
+}
